@@ -33,6 +33,10 @@ def setIndex (f : Nat → Obj) (o : Nat) (i : Int) : Nat → Obj :=
 def setDeliver (f : Nat → Obj) (o : Nat) (c p : Int) : Nat → Obj :=
   fun k => if k = o then { f k with client := c, pri := p } else f k
 
+/-- a brand-new `*Message` for id `o`: every in-flight field is the Go zero value -/
+def freshObj (f : Nat → Obj) (o : Nat) : Nat → Obj :=
+  fun k => if k = o then { pri := 0, index := 0, client := 0 } else f k
+
 def setPri (f : Nat → Obj) (o : Nat) (p : Int) : Nat → Obj :=
   fun k => if k = o then { f k with pri := p } else f k
 
@@ -156,14 +160,14 @@ inductive Cont where
   | finAfterPop (o : Nat)
   | reqAfterPop (o : Nat) (delay : Int)
   | reqAfterRemove (o : Nat) (delay : Int)
-  | touchAfterPop (o : Nat) (newPri : Int)
-  | touchAfterRemove (o : Nat) (newPri : Int)
+  | touchAfterPop (o : Nat)
+  | touchAfterRemove (o : Nat)
   | touchAfterMapPush (o : Nat)
   | inflightAfterMapPush (o : Nat)
   | scanAfterPQPop (o : Nat)
   | emptyAfterInflightReset
   | emptyAfterInitPQ
-  | deferAfterMapPush (o : Nat) (pri : Int)
+  | deferAfterMapPush (o : Nat)
   | dscanAfterPQPop (o : Nat)
 deriving Repr, DecidableEq
 
@@ -185,9 +189,9 @@ inductive Step where
   | reqPop (c : Int) (o : Nat) (d : Int)
   | reqRemove (o : Nat)
   | reqPut (o : Nat)                      -- put(msg) (d = 0) or pushDeferredMessage (d > 0)
-  | touchPop (c : Int) (o : Nat) (p : Int)
+  | touchPop (c : Int) (o : Nat)
   | touchRemove (o : Nat)
-  | touchMapPush (o : Nat)
+  | touchMapPush (o : Nat) (p : Int)     -- p = the new deadline computed from time.Now()
   | touchPQPush (o : Nat)
   | startMapPush (c : Int) (o : Nat) (p : Int)  -- pump took o off the queue; StartInFlightTimeout
   | startPQPush (o : Nat)
@@ -196,11 +200,12 @@ inductive Step where
   | emptyResetInflight
   | emptyResetDeferred
   | emptyRest
-  | deferMapPush (o : Nat) (p : Int)      -- StartDeferredTimeout from PutMessageDeferred
-  | deferPQPush (o : Nat)
+  | deferMapPush (o : Nat)                -- StartDeferredTimeout from PutMessageDeferred
+  | deferPQPush (o : Nat) (p : Int)       -- p = absolute due time computed from time.Now()
   | dscanPeek (t : Int)
   | dscanPop (o : Nat)
   | reload (o : Nat)                      -- a queued message read back from disk: a fresh *Message
+  | put (o : Nat)                         -- Channel.PutMessage of a new message object
 deriving Repr, DecidableEq
 
 inductive Res where
@@ -251,28 +256,26 @@ def step (fixed : Bool) (s : St) : Step → Res
         Res.ok { s with conts := dropCont s.conts (Cont.reqAfterRemove o d) }  -- "ID already deferred"
       else
         Res.ok { s with dmap := o :: s.dmap,
-                        conts := Cont.deferAfterMapPush o d :: dropCont s.conts (Cont.reqAfterRemove o d) }
+                        conts := Cont.deferAfterMapPush o :: dropCont s.conts (Cont.reqAfterRemove o d) }
     | _ => Res.disabled
-  | .touchPop c o p =>
+  | .touchPop c o =>
     if o ∈ s.map ∧ (s.h.objs o).client = c then
-      Res.ok { s with map := s.map.erase o, conts := Cont.touchAfterPop o p :: s.conts }
+      Res.ok { s with map := s.map.erase o, conts := Cont.touchAfterPop o :: s.conts }
     else Res.ok s
   | .touchRemove o =>
-    match s.conts.find? (fun k => match k with | Cont.touchAfterPop o' _ => o' = o | _ => false) with
-    | some (Cont.touchAfterPop _ p) =>
+    if Cont.touchAfterPop o ∈ s.conts then
       okH s (removeFromPQ fixed s.h o) (fun h =>
-        { s with h := h, conts := Cont.touchAfterRemove o p :: dropCont s.conts (Cont.touchAfterPop o p) })
-    | _ => Res.disabled
-  | .touchMapPush o =>
-    match s.conts.find? (fun k => match k with | Cont.touchAfterRemove o' _ => o' = o | _ => false) with
-    | some (Cont.touchAfterRemove _ p) =>
+        { s with h := h, conts := Cont.touchAfterRemove o :: dropCont s.conts (Cont.touchAfterPop o) })
+    else Res.disabled
+  | .touchMapPush o p =>
+    if Cont.touchAfterRemove o ∈ s.conts then
       if o ∈ s.map then        -- "ID already in flight": TouchMessage returns the error (pri already written)
         Res.ok { s with h := { s.h with objs := setPri s.h.objs o p },
-                        conts := dropCont s.conts (Cont.touchAfterRemove o p) }
+                        conts := dropCont s.conts (Cont.touchAfterRemove o) }
       else
         Res.ok { s with h := { s.h with objs := setPri s.h.objs o p }, map := o :: s.map,
-                        conts := Cont.touchAfterMapPush o :: dropCont s.conts (Cont.touchAfterRemove o p) }
-    | _ => Res.disabled
+                        conts := Cont.touchAfterMapPush o :: dropCont s.conts (Cont.touchAfterRemove o) }
+    else Res.disabled
   | .touchPQPush o =>
     if Cont.touchAfterMapPush o ∈ s.conts then
       okH s (push s.h o) (fun h => { s with h := h, conts := dropCont s.conts (Cont.touchAfterMapPush o) })
@@ -313,17 +316,16 @@ def step (fixed : Bool) (s : St) : Step → Res
     if Cont.emptyAfterInitPQ ∈ s.conts then
       Res.ok { s with queued := [], conts := dropCont s.conts Cont.emptyAfterInitPQ }
     else Res.disabled
-  | .deferMapPush o p =>
+  | .deferMapPush o =>
     if o ∈ s.queued then
       if o ∈ s.dmap then Res.ok { s with queued := s.queued.erase o }
       else Res.ok { s with queued := s.queued.erase o, dmap := o :: s.dmap,
-                           conts := Cont.deferAfterMapPush o p :: s.conts }
+                           conts := Cont.deferAfterMapPush o :: s.conts }
     else Res.disabled
-  | .deferPQPush o =>
-    match s.conts.find? (fun k => match k with | Cont.deferAfterMapPush o' _ => o' = o | _ => false) with
-    | some (Cont.deferAfterMapPush _ p) =>
-      Res.ok { s with dpq := (p, o) :: s.dpq, conts := dropCont s.conts (Cont.deferAfterMapPush o p) }
-    | _ => Res.disabled
+  | .deferPQPush o p =>
+    if Cont.deferAfterMapPush o ∈ s.conts then
+      Res.ok { s with dpq := (p, o) :: s.dpq, conts := dropCont s.conts (Cont.deferAfterMapPush o) }
+    else Res.disabled
   | .dscanPeek t =>
     match dmin s.dpq with
     | none => Res.ok s
@@ -338,8 +340,11 @@ def step (fixed : Bool) (s : St) : Step → Res
       else Res.ok { s with conts := dropCont s.conts (Cont.dscanAfterPQPop o) }
     else Res.disabled
   | .reload o =>
-    if o ∈ s.queued then Res.ok { s with h := { s.h with objs := setIndex s.h.objs o 0 } }
+    if o ∈ s.queued ∧ o ∉ s.h.pq then Res.ok { s with h := { s.h with objs := freshObj s.h.objs o } }
     else Res.disabled
+  | .put o =>
+    if o ∈ s.queued ∨ o ∈ s.map ∨ o ∈ s.dmap ∨ o ∈ s.h.pq then Res.disabled   -- ids are unique (C12)
+    else Res.ok { s with h := { s.h with objs := freshObj s.h.objs o }, queued := o :: s.queued }
 
 /-- run a schedule; stops at the first panic or disabled step -/
 def run (fixed : Bool) : St → List Step → Res
